@@ -42,6 +42,20 @@ def uapi():
             "prSetNoNewPrivs": d(pr, "PR_SET_NO_NEW_PRIVS"), "errnoEPERM": d(eb, "EPERM"), "errnoENOSYS": d(en, "ENOSYS")}
 
 
+def uapi_lookup():
+    """name -> value for every plain numeric #define of the UAPI headers the library's constants come from (None if a name is not there)."""
+    txt = ""
+    for a, b in (("/usr/include/linux/seccomp.h", "/seccomp.h"), ("/usr/include/linux/prctl.h", "/prctl.h"), ("/usr/include/asm-generic/errno-base.h", "/errno-base.h"),
+                 ("/usr/include/asm-generic/errno.h", "/errno.h")):
+        txt += open(first(a, ORACLE + b)).read() + "\n"
+    out = {}
+    for name, sh in re.findall(r"#define\s+(\w+)\s+\(1UL << (\d+)\)", txt):
+        out[name] = 1 << int(sh)
+    for name, val in re.findall(r"#define\s+(\w+)\s+\(?\s*(0x[0-9a-fA-F]+|\d+)U?L?\s*\)?\s", txt):
+        out.setdefault(name, int(val, 0))
+    return out
+
+
 LINUX_FAMILY = ("linux", "android")   # GOOS=android satisfies the `linux` build constraint: the real loader is compiled there
 
 
@@ -231,6 +245,7 @@ def check(ctx, replay=None):
     ctx.tlc("StubHist", "SPECIFICATION Spec\nCHECK_DEADLOCK FALSE\n", files={"ConstsData.tla": stubdata, "StubHist.tla": hmod}, workers=1, timeout=300)
     stubruns = simulate_stubs(ctx, bindir, facts, json.load(open(hfile)))
     u = uapi()
+    hdr = uapi_lookup()
     rows = []
     nbuilt = 0
     for f in facts:
@@ -245,6 +260,8 @@ def check(ctx, replay=None):
                      "stubs": [{"func": s["func"], "returns": s.get("returns") or [], "calls": s["calls"]} for s in (f.get("stubs") or [])] if f["goos"] not in LINUX_FAMILY else [],
                      "imports": (f.get("imports") or []) if f["goos"] not in LINUX_FAMILY else [],
                      "stubrun": {k: v for k, v in stubruns.get(t, {"executed": False, "supported_true": 0, "syscalls": [], "panics": 0}).items() if k in ("executed", "supported_true", "syscalls", "panics")},
+                     "unixconsts": [{"name": n, "got": g, "want": str(hdr[n])} for n, g in sorted((f.get("all_unix") or {}).items())
+                                    if hdr.get(n) is not None and not (n == "ENOSYS" and f["goos"] in LINUX_FAMILY)] if builds else [],
                      "hastable": bool(lk["var"]), "getinfo_err": lk["err"]})
     if nbuilt < len(targets) * 0.6:
         raise vlib.Machinery("only %d of %d targets build" % (nbuilt, len(targets)))
@@ -262,6 +279,11 @@ def check(ctx, replay=None):
             ctx.cov["evaluations"] += 1
             if got != str(w):
                 viol.append(("%s: %s = %s, the kernel's value is %d" % (t, n, got, w), {"target": t, "const": n}))
+        # every constant internal/unix exports on this target that the UAPI headers define, whether or not it is on the list above
+        for c in r["unixconsts"]:
+            ctx.cov["evaluations"] += 1
+            if c["got"] != c["want"]:
+                viol.append(("%s: unix.%s = %s, the kernel's value is %s" % (t, c["name"], c["got"], c["want"]), {"target": t, "const": "unix." + c["name"]}))
         if r["goos"] not in LINUX_FAMILY:
             sr = r["stubrun"]
             full = stubruns.get(t, {})
